@@ -32,6 +32,9 @@ pub const K_FM_BUILD: u8 = 10;    // a = elem size, b = elem align, c = mem id
 pub const K_FM_RESIZE: u8 = 11;   // a = old size (elements), b = new size, c = mem id
 pub const K_FM_EXPAND: u8 = 12;   // a = additional, b = exact?1:0, c = mem id
 pub const K_FM_DROP: u8 = 13;     // a = size (elements) at release, c = mem id
+pub const K_B_NEW: u8 = 14;       // tracked builder created by the driver; c = token
+pub const K_B_CLONE: u8 = 15;     // tracked builder cloned; a = source token, c = new token
+pub const K_B_DROP: u8 = 16;      // tracked builder dropped; c = token
 
 #[derive(Clone, Copy)]
 struct Blk { region: usize, rlen: usize, ptr: usize, bytes: usize, align: usize, live: bool, id: u32, stale: bool }
@@ -256,5 +259,42 @@ impl Drop for FenceMem {
         reg::log(Cb::Mem(K_FM_DROP, 0, clamp(self.size), 0, self.id, 0));
         unsafe { if self.layout.size() != 0 && self.size != 0 { if let Some(i) = find(self.ptr) { fence_release(i); } } }
         self.size = 0;
+    }
+}
+
+// ----------------------------------------------------------------------------------------------------------------------
+/// The same relocating backend with a STATEFUL builder (every instance carries a token; creation, clone and drop are
+/// logged) whose Mem can be taken apart into raw parts: the builder of a vector is moved through a raw-parts round trip,
+/// cloned exactly where the API says so, and dropped exactly once.
+pub struct FenceRawBuilder { tok: u32 }
+static mut NEXT_TOK: u32 = 1;
+pub fn reset_tok() { unsafe { NEXT_TOK = 1; } }
+fn next_tok() -> u32 { unsafe { let t = NEXT_TOK; NEXT_TOK += 1; t } }
+impl FenceRawBuilder {
+    pub fn new() -> Self { let tok = next_tok(); reg::log(Cb::Mem(K_B_NEW, 0, 0, 0, tok, 0)); FenceRawBuilder { tok } }
+}
+impl Clone for FenceRawBuilder {
+    fn clone(&self) -> Self { let tok = next_tok(); reg::log(Cb::Mem(K_B_CLONE, 0, self.tok, 0, tok, 0)); FenceRawBuilder { tok } }
+}
+impl Drop for FenceRawBuilder {
+    fn drop(&mut self) { reg::log(Cb::Mem(K_B_DROP, 0, 0, 0, self.tok, 0)); }
+}
+impl MemBuilder for FenceRawBuilder {
+    type Mem = FenceMem;
+    fn build(&mut self, element_layout: Layout) -> FenceMem { FenceMemBuilderK::<1>.build(element_layout) }
+}
+impl MemBuilderSizeable for FenceRawBuilder {
+    fn build_with_size(&mut self, element_layout: Layout, capacity: usize) -> FenceMem { FenceMemBuilderK::<1>.build_with_size(element_layout, capacity) }
+}
+#[derive(Clone)]
+pub struct FenceHandle { ptr: usize, id: u32, k: usize }
+impl any_vec::mem::MemRawParts for FenceMem {
+    type Handle = FenceHandle;
+    fn into_raw_parts(self) -> (FenceHandle, Layout, usize) {
+        let this = core::mem::ManuallyDrop::new(self);
+        (FenceHandle { ptr: this.ptr, id: this.id, k: this.k }, this.layout, this.size)
+    }
+    unsafe fn from_raw_parts(h: FenceHandle, element_layout: Layout, size: usize) -> Self {
+        FenceMem { ptr: h.ptr, size, layout: element_layout, id: h.id, k: h.k }
     }
 }
